@@ -24,10 +24,10 @@ CHECKS = {
 }
 
 CHECKS["C03"] = dict(
-    technique="Coq proof (flag half): non-interference theorem instantiated with a zero-length permutation array, vm_compute per exported kernel; value half: the '-' cell is given every kind of valid local numbering and the kernel is run for every permutation code against the oracle, which pulls the physical point back into the renumbered cell; real-C search over all permutation codes for unflagged kernels",
-    text="Per exported kernel flagged needs_facet_permutations=false, for ALL inputs: the kernel never reads quadrature_permutation, hence the result is independent of it (theorem C03_unflagged_kernel_ignores_permutation). Numbering invariance is decided per sampled kernel and sampled renumbering (elements of the cell's symmetry group, all vertex permutations for simplices): some code of the '-' side reproduces the geometrically defined integral, and kernels with a single matching code agree on it for equal (cell, renumbering, facets). That the permutation family is the facet symmetry group is NOT proved in Coq (partial); which code DOLFINx passes is outside FFCx.",
-    note="Coq kernel+VM; exporter; oracle (affine '-' cells, pull-back of physical points); forms and renumberings sampled; DOLFINx's computation of permutation codes outside FFCx",
-    design="DESIGN.md S.2 / 3 C03")
+    technique="Coq proof: (flag half) non-interference theorem instantiated with a zero-length permutation array, vm_compute per exported kernel; (numbering half) FFCx's point permutations and the stacking order of the permuted tables are translated from elementtables.py on every run, and it is proved that code c acts on the vertex shape functions of the reference facet by a pinned table, that the tables are the full symmetry groups (S3, D4, Z2) and hence that for every relative numbering of a shared affine/bilinear facet some code aligns the physical points of both sides at every point; value level: the '-' cell is renumbered and every code is run against the oracle",
+    text="Per exported kernel flagged needs_facet_permutations=false, for ALL inputs: the kernel never reads quadrature_permutation. For ALL points of the reference facet and all vertex coordinates: the permuted point of code c is the image under the facet symmetry tabulated for c, the tabulated symmetries are all symmetries, and some code makes both sides' physical points coincide for each of the 6 / 8 / 2 relative numberings. Sampled: per kernel and sampled renumbering of the '-' cell some code reproduces the oracle's integral and unique matching codes agree across kernels. Not proved: that the kernel's tables ARE the element tabulated at the permuted points (decided by the value runs), curved facets, which code DOLFINx passes.",
+    note="Coq kernel+VM; exporter; tr_perm.py; oracle (affine '-' cells, pull-back of physical points); forms and renumberings sampled; DOLFINx's computation of permutation codes outside FFCx",
+    design="DESIGN.md S.2 and 3 C03")
 CHECKS["C19"] = dict(
     technique="Coq proof: scoping/typing progress theorem per exported kernel (vm_compute), finite exhaustive theorem over the rule-id table regenerated from /repo; gcc -std=c17 on every accepted case; rejection stream",
     text="Per exported kernel: every identifier declared once per C scope, before use, in scope (C name resolution done by the exporter, redeclaration/unbound detected by the proven checker). Exhaustive over cells x degree 0..30 x schemes x polyset types x vertex scheme: equal rule ids imply equal points and weights. Every accepted corpus case is compiled by gcc; unsupported constructs must raise before the compiler.",
